@@ -246,3 +246,144 @@ Proof.
     rewrite Htypes. cbn.
     destruct x as [[d|] ops]; reflexivity.
 Qed.
+
+(* ---- the same law with operation types added by schema extensions in B *)
+Definition root_of (k : N) (s : schema) : option name :=
+  if k =? 0 then s_query s else if k =? 1 then s_mutation s else s_subscription s.
+
+(* the last operation of kind k in a list of operation types *)
+Fixpoint last_op (k : N) (ops : list (N * name)) (cur : option name) : option name :=
+  match ops with
+  | [] => cur
+  | (k', n) :: r => last_op k r (if (if k' =? 0 then 0 else if k' =? 1 then 1 else 2) =? k then Some n else cur)
+  end.
+
+Lemma set_roots_components r ops :
+  set_roots r ops = mkRoots (last_op 0 ops (r_query r)) (last_op 1 ops (r_mutation r)) (last_op 2 ops (r_subscription r)).
+Proof.
+  unfold set_roots. revert r. induction ops as [|[k n] rest IH]; intro r; cbn [fold_left last_op].
+  - destruct r; reflexivity.
+  - rewrite IH. unfold set_root.
+    destruct (k =? 0) eqn:E0; [cbn; reflexivity|]. destruct (k =? 1) eqn:E1; cbn; reflexivity.
+Qed.
+
+Lemma last_op_none k ops cur :
+  (forall n, ~ In (k, n) ops) -> (k = 0 \/ k = 1 \/ k = 2) ->
+  (forall k' n, In (k', n) ops -> k' = 0 \/ k' = 1 \/ k' = 2) ->
+  last_op k ops cur = cur.
+Proof.
+  revert cur. induction ops as [|[k' n] rest IH]; intros cur Hn Hk Hops; cbn [last_op]; [reflexivity|].
+  assert (Hk' : k' = 0 \/ k' = 1 \/ k' = 2) by (apply (Hops k' n); left; reflexivity).
+  assert (Hne : k' <> k) by (intro; subst; apply (Hn n); left; reflexivity).
+  rewrite IH.
+  - destruct Hk' as [E1|[E1|E1] ], Hk as [E2|[E2|E2] ]; subst; cbn; try reflexivity; contradiction.
+  - intros m Hm. apply (Hn m). right. exact Hm.
+  - exact Hk.
+  - intros k2 n2 H2. apply (Hops k2 n2). right. exact H2.
+Qed.
+
+Lemma last_op_some k ops cur :
+  (exists n, In (k, n) ops) -> (k = 0 \/ k = 1 \/ k = 2) ->
+  (forall k' n, In (k', n) ops -> k' = 0 \/ k' = 1 \/ k' = 2) ->
+  exists m, last_op k ops cur = Some m /\ forall cur', last_op k ops cur' = Some m.
+Proof.
+  revert cur. induction ops as [|[k' n] rest IH]; intros cur [m Hm] Hk Hops; [destruct Hm|].
+  cbn [last_op].
+  assert (Hk' : k' = 0 \/ k' = 1 \/ k' = 2) by (apply (Hops k' n); left; reflexivity).
+  assert (Hrest : forall k2 n2, In (k2, n2) rest -> k2 = 0 \/ k2 = 1 \/ k2 = 2)
+    by (intros k2 n2 H2; apply (Hops k2 n2); right; exact H2).
+  assert (Hdec : (exists m', In (k, m') rest) \/ (forall m', ~ In (k, m') rest)).
+  { clear -rest. induction rest as [|[k2 n2] r IHr]; [right; intros ? []|].
+    destruct (N.eq_dec k2 k) as [->|Hne]; [left; exists n2; left; reflexivity|].
+    destruct IHr as [[m' Hm']|Hno]; [left; exists m'; right; exact Hm'|].
+    right. intros m' [H|H]; [inversion H; contradiction|exact (Hno m' H)]. }
+  destruct Hdec as [Hex|Hno].
+  - destruct (IH (if (if k' =? 0 then 0 else if k' =? 1 then 1 else 2) =? k then Some n else cur) Hex Hk Hrest)
+      as [m2 [H1 H2]].
+    exists m2. split; [exact H1|]. intro cur'. apply H2.
+  - destruct Hm as [Hm|Hm]; [|exfalso; exact (Hno m Hm)].
+    inversion Hm; subst k' n. exists m.
+    assert (Hnorm : (if k =? 0 then 0 else if k =? 1 then 1 else 2) =? k = true).
+    { destruct Hk as [E|[E|E] ]; subst; reflexivity. }
+    rewrite Hnorm. split; [|intro cur']; apply last_op_none; assumption.
+Qed.
+
+Definition ops_wellformed (ops : list (N * name)) : Prop :=
+  forall k n, In (k, n) ops -> k = 0 \/ k = 1 \/ k = 2.
+
+(* conv after adding B's operations = adding B's operations after conv, when B only fills empty roots *)
+Lemma conv_last_op k nk ts opsA opsB r0 :
+  (k = 0 \/ k = 1 \/ k = 2) -> ops_wellformed opsB ->
+  ((exists n, In (k, n) opsB) -> conv nk ts (last_op k opsA r0) = None) ->
+  conv nk ts (last_op k (opsA ++ opsB) r0) = last_op k opsB (conv nk ts (last_op k opsA r0)).
+Proof.
+  intros Hk Hwf H4.
+  assert (Happ : forall a b c, last_op k (a ++ b) c = last_op k b (last_op k a c)).
+  { induction a as [|[k' n] a IH]; intros b c; cbn [app last_op]; [reflexivity|apply IH]. }
+  rewrite Happ.
+  assert (Hdec : (exists m', In (k, m') opsB) \/ (forall m', ~ In (k, m') opsB)).
+  { clear -opsB. induction opsB as [|[k2 n2] r IHr]; [right; intros ? []|].
+    destruct (N.eq_dec k2 k) as [->|Hne]; [left; exists n2; left; reflexivity|].
+    destruct IHr as [[m' Hm']|Hno]; [left; exists m'; right; exact Hm'|].
+    right. intros m' [H|H]; [inversion H; contradiction|exact (Hno m' H)]. }
+  destruct Hdec as [Hex|Hno].
+  - specialize (H4 Hex). destruct (last_op_some k opsB (last_op k opsA r0) Hex Hk Hwf) as [m [H1 H2]].
+    rewrite H1, (H2 (conv nk ts (last_op k opsA r0))).
+    unfold conv in *. destruct (has_type nk ts); [discriminate|reflexivity].
+  - rewrite !(last_op_none k opsB) by assumption. reflexivity.
+Qed.
+
+Theorem extend_hom_ops A B sA :
+  build A = Some sA ->
+  schema_defs B = [] ->
+  ops_wellformed (schema_ext_ops B) ->
+  (* B's schema extensions only fill operation types that the schema does not have yet *)
+  (forall k n, In (k, n) (schema_ext_ops B) -> root_of k sA = None) ->
+  (forall e t, In e (type_exts A) -> In t (type_defs B) -> t_name e <> t_name t) ->
+  (forall t, In t (type_defs B) -> t_name t <> nQuery /\ t_name t <> nMutation /\ t_name t <> nSubscription) ->
+  build (A ++ B) = Some (extend sA B).
+Proof.
+  intros HA HsB Hwf H4 H1 H3. rewrite extend_is_extend_args.
+  assert (Htypes : map (apply_exts (type_exts A ++ type_exts B)) (type_defs A ++ type_defs B)
+          = map (apply_exts (type_exts B)) (map (apply_exts (type_exts A)) (type_defs A))
+            ++ map (apply_exts (type_exts B)) (type_defs B)).
+  { rewrite map_app, map_map. f_equal.
+    - apply map_ext. intro t. apply apply_exts_app.
+    - apply map_ext_in. intros t Ht. rewrite apply_exts_app. f_equal.
+      apply apply_exts_foreign. intros e He. apply (H1 e t He Ht). }
+  unfold build in *. rewrite schema_defs_app, HsB, app_nil_r.
+  destruct (schema_defs A) as [|x [|y r]] eqn:EA; [| |discriminate].
+  - inversion HA; subst sA; clear HA.
+    unfold extend_args. cbn [s_types s_directives s_query s_mutation s_subscription s_desc empty_schema].
+    rewrite schema_defs_app, HsB, EA, schema_ext_ops_app, type_exts_app, type_defs_app, dir_defs_app.
+    cbn [app map last]. rewrite Htypes.
+    rewrite !set_roots_components. cbn [r_query r_mutation r_subscription].
+    unfold conv at 1 2 3.
+    rewrite !(has_type_app_foreign _ (type_exts B) _ (type_defs B)) by (intros t Ht; apply (H3 t Ht)).
+    rewrite !has_type_map.
+    set (tsA := map (apply_exts (type_exts A)) (type_defs A)).
+    assert (HQ := conv_last_op 0 nQuery tsA (schema_ext_ops A) (schema_ext_ops B) None (or_introl eq_refl) Hwf).
+    assert (HM := conv_last_op 1 nMutation tsA (schema_ext_ops A) (schema_ext_ops B) None
+                    (or_intror (or_introl eq_refl)) Hwf).
+    assert (HS := conv_last_op 2 nSubscription tsA (schema_ext_ops A) (schema_ext_ops B) None
+                    (or_intror (or_intror eq_refl)) Hwf).
+    unfold conv in HQ, HM, HS. subst tsA. rewrite !has_type_map in HQ, HM, HS.
+    unfold extend_args in H4. rewrite EA in H4. cbn [map last] in H4.
+    rewrite HQ, HM, HS.
+    + unfold conv. rewrite !has_type_map. reflexivity.
+    + intros [n Hn]. specialize (H4 2 n Hn). unfold root_of in H4. cbn in H4.
+      rewrite set_roots_components in H4. cbn in H4. unfold conv in H4. rewrite has_type_map in H4. exact H4.
+    + intros [n Hn]. specialize (H4 1 n Hn). unfold root_of in H4. cbn in H4.
+      rewrite set_roots_components in H4. cbn in H4. unfold conv in H4. rewrite has_type_map in H4. exact H4.
+    + intros [n Hn]. specialize (H4 0 n Hn). unfold root_of in H4. cbn in H4.
+      rewrite set_roots_components in H4. cbn in H4. unfold conv in H4. rewrite has_type_map in H4. exact H4.
+  - inversion HA; subst sA; clear HA.
+    unfold extend_args. cbn [s_types s_directives s_query s_mutation s_subscription s_desc empty_schema].
+    rewrite schema_defs_app, HsB, EA, schema_ext_ops_app, type_exts_app, type_defs_app, dir_defs_app.
+    cbn [app map last]. rewrite Htypes.
+    unfold set_roots. rewrite fold_left_app. cbn.
+    destruct x as [[d|] ops]; cbn;
+      match goal with |- context [fold_left set_root (schema_ext_ops B) ?r] =>
+        destruct (fold_left set_root (schema_ext_ops A) (fold_left set_root ops (mkRoots None None None))) end;
+      reflexivity.
+Qed.
